@@ -2,3 +2,4 @@ import Props.C17
 import Props.C18
 import Props.C09
 import Props.C06
+import Props.C16
